@@ -327,7 +327,9 @@ impl<'a> Runner<'a> {
                             .sum();
                         let uai = norm(ua as i128, ua);
                         let ubi = norm(ub as i128, ub);
-                        xs.iter().any(|x| uai == ubi + x - others_removed || uai == ubi + x - others_removed - old_size || uai == *x)
+                        // the restart is for a store that was emptied: every other record is gone
+                        let others_left = after.iter().filter(|d| Some(&d.key) != key.as_ref()).count();
+                        xs.iter().any(|x| uai == ubi + x - others_removed || uai == ubi + x - others_removed - old_size || (others_left == 0 && uai == *x))
                     };
                     let tag = if evicting && !explained {
                         "@eviction-loop-unexplained"
@@ -616,12 +618,13 @@ pub fn explore_seq(cfg: &SeqCfg, threads: usize, tree_depth: usize) -> SeqReport
         for c in root {
             crate::watchdog::working_on(format!("[{}] root history of {} commands, at command #{}: {}", cfg.name, root.len(), h.len(), cfg.alphabet[*c as usize].short()));
             let ap = r.apply(*c as usize, &[]);
-            if !ap.applicable || ap.divergence.is_some() || !ap.choice_ns.is_empty() {
+            if !ap.applicable || ap.divergence.is_some() {
                 rep.machinery_error = Some(format!("[{}] root history not executable at command {}", cfg.name, h.len()));
                 ok = false;
                 break;
             }
-            h.push(Elem { cmd: *c, choices: vec![] });
+            // (victim choices inside a root history take the first candidate each time)
+            h.push(Elem { cmd: *c, choices: vec![0; ap.choice_ns.len()] });
             transitions.fetch_add(1, Ordering::Relaxed);
             record(&h, *c as usize, &ap);
             if ap.pruned {
